@@ -35,6 +35,16 @@ def main():
                 B, rec, err = emodify.run_case(req["case"], record=False)
                 d = irdump.dump_ir(B.m, irdump.IdMap())
                 d["order"], d["fbb"], d["next"] = [], [], 0
+                # where gtirb_layout puts each *section* depends on the iteration order of module.sections (a set
+                # of id-hashed nodes) - a property of that dependency, not of gtirb-rewriting: addresses are
+                # compared relative to the start of their section
+                base = {}
+                for iv in d["intervals"]:
+                    if iv["addr"] is not None:
+                        base[iv["sect"]] = min(base.get(iv["sect"], iv["addr"]), iv["addr"])
+                for iv in d["intervals"]:
+                    if iv["addr"] is not None:
+                        iv["addr"] -= base[iv["sect"]]
                 c, _ = irdump.canon(d)
                 out = {"err": err, "canon": c}
             else:
